@@ -40,9 +40,12 @@ def _lattice(tier):
         # pairwise cover of ISA x {std} x {opt} x {checks}; compilers alternate.  Deterministic construction: latin-square style.
         stds, opts = ["14", "17"], ["O2", "O0", "O3", "O1"]
         checks = [dict(ndebug=True), dict(ndebug=False), dict(ndebug=True, defs=("FASTOR_ENABLE_RUNTIME_CHECKS=1",))]
+        # every ISA under two optimisation levels, every optimisation level under three ISAs; language level, check mode and
+        # compiler rotate so that each value meets each ISA class (SSE / AVX / AVX-512) at least once
         for i, isa in enumerate(ALL_ISAS):
-            for j, opt in enumerate(opts):
-                std = stds[(i + j) % 2]
+            for kk, j in enumerate((i % 4, (i + 2) % 4)):
+                opt = opts[j]
+                std = stds[(i + kk) % 2]
                 chk = checks[(i + 2 * j) % 3]
                 cxx = "clang++" if (i * 4 + j) % 5 == 3 else "g++"
                 cfgs.append(Config(isa=isa, std=std, opt=opt, cxx=cxx, **chk))
@@ -91,8 +94,10 @@ def corpus(tier):
                 ids14 = {x.id for x in cs}
             taken = {}
             for c in sorted(cs, key=lambda c: (c.cost, len(c.id))):
-                if not c.judged:
-                    continue
+                if not c.judged or not c.must_compile:
+                    continue      # spellings the owner does not judge (unimplemented strategy tags etc.) are not part of the corpus
+                if c.cost > (1.5 if tier == "quick" else 8.0):
+                    continue      # the differential corpus stays cheap: large-n instantiations are the owner's thorough business
                 r = c.route or "none"
                 if pid == "C02":   # routes of C02 are (group, form): keep the node kind visible as well
                     r = r + "." + c.id.split("tree=")[-1][:6] if "tree=" in c.id and tier == "thorough" else r
@@ -106,7 +111,7 @@ def corpus(tier):
                 meta["needs_cxx17"] = ref.std == "17" and ids14 is not None and c.id not in ids14
                 out.append(Case(c.id, c.body, route=f"{pid}.{c.route}", must_compile=c.must_compile, cost=c.cost, judged=True, meta=meta))
     # cap per owning property, spread evenly over its routes (quick 15, thorough 60 identities per property)
-    cap = 15 if tier == "quick" else 60
+    cap = 8 if tier == "quick" else 25
     capped = []
     for pid in SOURCES:
         mine = sorted((c for c in out if c.meta["owner"] == pid), key=lambda c: (c.route, c.id))
@@ -209,6 +214,6 @@ def finalize(run, cov):
 
 
 def bounds(tier):
-    return {"quick": "corpus = one case per dispatch route per registered property (generated for W of SSE and of AVX-512); 24 configurations covering every pair of "
-                     "(ISA, optimisation level) with C++14/17, NDEBUG/debug/runtime-checks and g++/clang spread over them, plus 7 documented macros toggled once",
-            "thorough": "corpus = up to three cases per route; full grid ISA x {C++14,17} x {O0,O2,O3} (36) + 13 macro variations + clang on three ISAs + debug/runtime-check builds"}[tier]
+    return {"quick": "corpus = up to 8 identities per registered property spread over its dispatch routes (generated for W of SSE and of AVX-512); 12 configurations: every ISA "
+                     "under two optimisation levels with C++14/17, NDEBUG/debug/runtime-checks and g++/clang rotated over them, plus 8 documented macro settings",
+            "thorough": "corpus = up to 25 identities per property (three per route); full grid ISA x {C++14,17} x {O0,O2,O3} (36) + 13 macro variations + clang on three ISAs + debug/runtime-check builds"}[tier]
